@@ -204,6 +204,11 @@ def run(ctx):
                         found += 1
                         mp = U(st.targets[0])
                         b = U(st.value.func.value)
+                        # growth is attempted exactly for adaptive binnings: the innermost decision before it is `<b>.is_adaptive()` = True
+                        idx_ = path.index(s)
+                        pc = [(U(x[1]), x[2]) for x in path[:idx_] if x[0] == "cond"]
+                        if not pc or pc[-1] not in ((f"{b}.is_adaptive()", True), ("self.is_adaptive()", True)):
+                            probs.append(f"`{U(st)[:50]}` is not guarded by `{b}.is_adaptive()` being true (last decision: {pc[-1:] or None})")
                         nxt = next((x[1] for x in sts[j + 1:] if x[0] == "stmt"), None)
                         ok = False
                         if isinstance(nxt, ast.Expr) and isinstance(nxt.value, ast.Call) and U(nxt.value.func) == "self._reshape_data":
@@ -215,6 +220,15 @@ def run(ctx):
                         if not ok:
                             probs.append(f"`{U(st)[:60]}` is not followed at once by self._reshape_data({b}.bin_count, {mp}"
                                          + (", <axis of that binning>)" if nd else ")") + f" (next statement: `{U(nxt)[:60] if nxt is not None else None}`)")
+            for path in function_paths(fi.node):
+                if end_kind(path) == "raise":
+                    continue
+                for k_, x in enumerate(path):
+                    if x[0] == "cond" and U(x[1]).endswith(".is_adaptive()") and x[2]:
+                        nxt_ = next((y for y in path[k_ + 1:] if y[0] == "stmt"), None)
+                        if nxt_ is None or "force_bin_existence" not in U(nxt_[1]):
+                            probs.append(f"an adaptive binning is not grown (after `{U(x[1])}` the next statement is "
+                                         f"`{U(nxt_[1])[:50] if nxt_ else None}`)")
             ctx.check(found > 0 and not probs, "C04.b", f"{cname}.{mname}:grow-then-reshape", f"{found} growth site(s) on the paths, each reshaped at once on the right axis",
                       " ; ".join(sorted(set(probs))[:2]) or "no growth site found", fi.where)
 
@@ -346,6 +360,31 @@ def run(ctx):
     # ---- C04.f the edges tested by the growth code are the edges the lookup uses, bit for bit ---------------------
     ctx.rule("C04.f", "first_edge / last_edge (growth tests) are float-exact instances of the numpy_bins formula (lookup)", 5)
     c07.check_edge_formula(ctx, "C04.f", m)
+
+    # ---- C04.g switching adaptivity on reaches every binning ---------------------------------------------------------
+    ctx.rule("C04.g", "set_adaptive / the adaptive setter reach every axis' binning; is_adaptive asks all of them", 4)
+    HBc, BBc = m.cls("HistogramBase"), m.cls("BinningBase")
+    sa_ = HBc.methods["set_adaptive"]
+    ctx.saw(sa_)
+    vpar = [q for q in sa_.params() if q != "self"][0]
+    loops_ = [n for n in ast.walk(sa_.node) if isinstance(n, ast.For) and U(n.iter) in ("self._binnings", "self.binnings")]
+    oks = bool(loops_) and any(isinstance(b, ast.Expr) and U(b.value) == f"{U(loops_[0].target)}.set_adaptive({vpar})" for b in loops_[0].body)
+    ctx.check(oks, "C04.g", "HistogramBase.set_adaptive", "every binning of the histogram gets set_adaptive(value)",
+              "HistogramBase.set_adaptive no longer switches every axis' binning", sa_.where)
+    ads = HBc.setters.get("adaptive")
+    ctx.check(ads is not None and any(U(c) == f"self.set_adaptive({[q for q in ads.params() if q != 'self'][0]})" for c in calls_in(ads.node)), "C04.g",
+              "HistogramBase.adaptive.setter", "h.adaptive = v is set_adaptive(v)", "the adaptive setter does not call set_adaptive(value)",
+              ads.where if ads else HBc.where)
+    ia_ = HBc.methods["is_adaptive"]
+    rets_ = [U(n.value) for n in ast.walk(ia_.node) if isinstance(n, ast.Return)]
+    ctx.check(rets_ in (["all((binning.is_adaptive() for binning in self._binnings))"], ["all((b.is_adaptive() for b in self._binnings))"]), "C04.g",
+              "HistogramBase.is_adaptive", "adaptive iff every binning is", f"is_adaptive returns {rets_}", ia_.where)
+    bsa = BBc.methods["set_adaptive"]
+    bpar = [q for q in bsa.params() if q != "self"][0]
+    stores_ = [U(n) for n in bsa.node.body if isinstance(n, ast.Assign)]
+    bia = BBc.methods["is_adaptive"]
+    ctx.check(stores_ == [f"self._adaptive = {bpar}"] and [U(n.value) for n in ast.walk(bia.node) if isinstance(n, ast.Return)] == ["self._adaptive"], "C04.g",
+              "BinningBase.set_adaptive", "stores the flag that is_adaptive reports", f"set_adaptive stores {stores_}", bsa.where)
 
     # ---- C04.d the lookup that follows the growth uses the kernel's convention (shared with C03.c) -----------------
     ctx.rule("C04.d", "after growth fill() looks the value up with the same interval convention as the kernels", 8)
